@@ -67,7 +67,7 @@ AcceptedOrders(st, k, a) ==       \* the design decision (see header); an add ma
 AddOutcomes(a) ==
   LET k == Len(s.kids) + 1 IN
   {c \in {<<RejRes, WithKid(s, k)>>} \cup {<<OKRes, Accepted(s, k, a, o)>> : o \in AcceptedOrders(s, k, a)} :
-      Failing(AddClauses(M, s, k, a, NoFwd, pure, c[1], c[2])) = {}}
+      Failing(AddClauses(M, s, k, a, NoFwd, pure, TRUE, c[1], c[2])) = {}}
 Add(a) == /\ Len(s.kids) < MaxKids /\ Len(s.ins) < MaxChildren
           /\ \E c \in AddOutcomes(a) : s' = c[2] /\ pure' = (pure /\ c[1].ok)
           /\ UNCHANGED t
